@@ -83,6 +83,7 @@ def replay_chunk(args):
     fails = []
     stats = {"evals": 0, "nontrivial": 0, "skipped": 0}
     for si, sc in enumerate(scens):
+        core.tick(sc, 900)
         tags = scen.features(sc) | {"c18"}
         if not scen.well_formed(sc) or "argv.forced_name_beside_main" in tags:
             stats["skipped"] += 1
